@@ -318,6 +318,19 @@ def fuse_tree(box):
 
     if not box.preds:
         return box.spec
+    if getattr(box, "pairfuse", False):
+        # this node and its single predecessor are collapsed by the legacy two-op fuse() (what simple_optimize_dag does); the result
+        # can then itself be a predecessor in a multiple-input fusion (a custom optimize_function composing both public passes)
+        from cubed.primitive.blockwise import fuse
+        from cubed.primitive.types import PrimitiveOperation
+        from cubed.runtime.types import CubedPipeline
+
+        def op(spec):
+            return PrimitiveOperation(pipeline=CubedPipeline(None, "x", None, spec), source_array_names=[], target_array=None, projected_mem=1, allowed_mem=1000,
+                                      reserved_mem=0, num_tasks=1)
+
+        (pred,) = box.preds
+        return fuse(op(fuse_tree(pred)), op(box.spec)).pipeline.config
     fused_preds = {}
     for p in box.preds:
         fs = fuse_tree(p)
@@ -604,7 +617,43 @@ def sc_nested_list_over_list(n, c, **_):
     return r, (c,), 0
 
 
+
+def _pairfused_q(n):
+    """q = h(g(a)) collapsed into ONE operation by the two-op fuse()"""
+    p = _box(["p"], kf_elemwise("p", ["a"], [(n,)], 1), ufunc("g"), ["a"])
+    q = _box(["q"], kf_elemwise("q", ["p"], [(n,)], 1), ufunc("h"), ["p"], [p])
+    q.pairfuse = True
+    return q
+
+
+def sc_pairfused_single(n, c, **_):
+    """f(q_c, a_c) where q is a pair-fused operation: single-block argument"""
+    q = _pairfused_q(n)
+    r = _box(["r"], kf_elemwise("r", ["q", "a"], [(n,), (n,)], 1), ufunc("f"), ["q", "a"], [q])
+    sx.assume(c < n)
+    return r, (c,), 0
+
+
+def sc_pairfused_list(n, c, **_):
+    """f([q_c, a_c]) where q is a pair-fused operation: list argument"""
+    q = _pairfused_q(n)
+    r = _box(["r"], _kf_user("r", lambda CK, co: ([CK("q", co), CK("a", co)],)), ufunc("f"), ["q", "a"], [q])
+    sx.assume(c < n)
+    return r, (c,), 0
+
+
+def sc_pairfused_stream(n, s, c, **_):
+    """partial_reduce (stream, fan-in s) over a pair-fused operation"""
+    q = _pairfused_q(n)
+    r = _box(["r"], kf_partial_reduce(NB("q", (n,)), s), ufunc("reduce"), ["q"], [q], nib=(s,))
+    sx.assume(c < (n + s - 1) // s)
+    return r, (c,), 0
+
+
 SCENARIOS = {
+    "elem>pair-fused(single)": (sc_pairfused_single, ["n", "c"]),
+    "list>pair-fused": (sc_pairfused_list, ["n", "c"]),
+    "reduce>pair-fused": (sc_pairfused_stream, ["n", "s", "c"]),
     "list-mixed-sources>elems": (sc_list_mixed_sources, ["n", "c"]),
     "list-mixed-with-passthrough": (sc_list_mixed_passthrough, ["n", "c"]),
     "list-same-source>elem": (sc_list_same_source, ["n", "c"]),
